@@ -27,7 +27,10 @@ class CoqFailure(Exception):
 def regenerate():
     """translator run; returns meta or raises CoqFailure"""
     try:
-        return translate.main(os.path.join(COQ, "Gen"))
+        import impl
+        from common import run as prun
+        tables_text = prun([impl.build("debug"), "tables"], inp=b"", timeout=600).stdout.decode()
+        return translate.main(os.path.join(COQ, "Gen"), tables_text)
     except translate.TranslateError as e:
         raise CoqFailure("translator", f"translator could not read the source: {e}")
 
